@@ -74,11 +74,14 @@ pub struct PipePlan {
     pub missing_stage: Option<usize>,
     /// the first stage generates its own data (no pipeline input)
     pub source_len: usize,
+    /// pipeline|pipeline: configure stdin/stderr_to on the left operand and stdout on the right one before composing
+    #[serde(default)]
+    pub early: bool,
 }
 
 impl Default for PipePlan {
     fn default() -> Self {
-        PipePlan { stages: vec![], shape: Shape::Chain, stdin: PStdin::Inherit, stdout: PStdout::Inherit, stderr_file: false, term: Term::Join, input_len: 0, missing_stage: None, source_len: 0 }
+        PipePlan { stages: vec![], shape: Shape::Chain, stdin: PStdin::Inherit, stdout: PStdout::Inherit, stderr_file: false, term: Term::Join, input_len: 0, missing_stage: None, source_len: 0, early: false }
     }
 }
 
@@ -102,7 +105,8 @@ pub fn generate(prop: &str, rng: &mut Rng, plan: &mut Plan, _index: u64) {
         Term::Popen => *rng.pick(&[PStdout::Inherit, PStdout::Pipe, PStdout::File]),
     };
     pp.stderr_file = !matches!(pp.term, Term::Capture | Term::Communicate) && rng.chance(1, 2);
-    pp.shape = *rng.pick(&[Shape::Chain, Shape::Iter, Shape::Pair, Shape::New]);
+    pp.shape = *rng.pick(&[Shape::Chain, Shape::Iter, Shape::Pair, Shape::Pair, Shape::New]);
+    pp.early = rng.chance(1, 2);
     let has_input = matches!(pp.stdin, PStdin::Pipe | PStdin::Data | PStdin::File);
     let small = rng.chance(3, 4);
     pp.input_len = if has_input { gen_len(rng, cap, !small).min(if small { 200_000 } else { 2 << 20 }) } else { 0 };
@@ -142,7 +146,9 @@ pub fn generate(prop: &str, rng: &mut Rng, plan: &mut Plan, _index: u64) {
     plan.body = Body::Pipe(pp);
 }
 
-fn build(pp: &PipePlan) -> Pipeline {
+type Cfg = Box<dyn FnOnce(Pipeline) -> Pipeline>;
+
+fn build(pp: &PipePlan, cfg_in: Cfg, cfg_out: Cfg, cfg_err: Cfg) -> Pipeline {
     let mk = |i: usize| {
         let name = if pp.missing_stage == Some(i) { "/bin/no-such-program".to_string() } else { format!("/bin/{}", pp.stages[i].prog) };
         let mut e = Exec::cmd(name).arg(format!("stage{}", i));
@@ -152,7 +158,22 @@ fn build(pp: &PipePlan) -> Pipeline {
         e
     };
     let n = pp.stages.len();
-    match pp.shape {
+    if pp.shape == Shape::Pair && n >= 4 && pp.early {
+        // settings made on the operands must survive the composition: the left one's input and
+        // error sink, the right one's output
+        let half = n / 2;
+        let mut a = mk(0) | mk(1);
+        for i in 2..half {
+            a = a | mk(i);
+        }
+        let mut b = mk(half) | mk(half + 1);
+        for i in half + 2..n {
+            b = b | mk(i);
+        }
+        return cfg_err(cfg_in(a)) | cfg_out(b);
+    }
+    let late = move |p: Pipeline| cfg_err(cfg_out(cfg_in(p)));
+    late(match pp.shape {
         Shape::Iter => Pipeline::from_exec_iter((0..n).map(mk)),
         Shape::New => {
             let mut p = Pipeline::new(mk(0), mk(1));
@@ -180,7 +201,7 @@ fn build(pp: &PipePlan) -> Pipeline {
             }
             p
         }
-    }
+    })
 }
 
 fn expected_output(pp: &PipePlan, input: &[u8]) -> Vec<u8> {
@@ -215,7 +236,9 @@ pub fn run(plan: &Plan, pp: &PipePlan) -> FamOut {
     let input = crate::fam_comm::input_bytes(pp.input_len, false);
     let table_before: BTreeMap<i32, usize> = sim().k.proc(PARENT_PID).fds.iter().map(|(fd, e)| (*fd, e.desc)).collect();
     let boot: Vec<usize> = (0..3).map(|i| desc_of_parent_fd(i).unwrap()).collect();
-    let mut p = build(pp);
+    let mut cfg_in: Cfg = Box::new(|p| p);
+    let mut cfg_out: Cfg = Box::new(|p| p);
+    let mut cfg_err: Cfg = Box::new(|p| p);
     let mut want_in: Option<usize> = None;
     let mut want_out: Option<usize> = None;
     let mut out_file_idx: Option<usize> = None;
@@ -224,13 +247,16 @@ pub fn run(plan: &Plan, pp: &PipePlan) -> FamOut {
         PStdin::File => {
             let f = mk_file("pin", input.clone());
             want_in = desc_of_parent_fd(std::os::unix::io::AsRawFd::as_raw_fd(&f));
-            p = p.stdin(f);
+            cfg_in = Box::new(move |p| p.stdin(f));
         }
-        PStdin::Null => p = p.stdin(subprocess::NullFile),
-        PStdin::Data => p = p.stdin(input.clone()),
+        PStdin::Null => cfg_in = Box::new(|p| p.stdin(subprocess::NullFile)),
+        PStdin::Data => {
+            let data = input.clone();
+            cfg_in = Box::new(move |p| p.stdin(data));
+        }
         PStdin::Pipe => {
             if pp.term == Term::Popen {
-                p = p.stdin(Redirection::Pipe);
+                cfg_in = Box::new(|p| p.stdin(Redirection::Pipe));
             }
         }
         PStdin::Inherit => want_in = Some(boot[0]),
@@ -243,12 +269,12 @@ pub fn run(plan: &Plan, pp: &PipePlan) -> FamOut {
             if let DescKind::File(i) = sim().k.descs[d].kind {
                 out_file_idx = Some(i);
             }
-            p = p.stdout(f);
+            cfg_out = Box::new(move |p| p.stdout(f));
         }
-        PStdout::Null => p = p.stdout(subprocess::NullFile),
+        PStdout::Null => cfg_out = Box::new(|p| p.stdout(subprocess::NullFile)),
         PStdout::Pipe => {
             if pp.term == Term::Popen {
-                p = p.stdout(Redirection::Pipe);
+                cfg_out = Box::new(|p| p.stdout(Redirection::Pipe));
             }
         }
         PStdout::Inherit => want_out = Some(boot[1]),
@@ -259,8 +285,9 @@ pub fn run(plan: &Plan, pp: &PipePlan) -> FamOut {
         if let DescKind::File(i) = sim().k.descs[d].kind {
             err_file_idx = Some(i);
         }
-        p = p.stderr_to(f);
+        cfg_err = Box::new(move |p| p.stderr_to(f));
     }
+    let p = build(pp, cfg_in, cfg_out, cfg_err);
     // ---- run the terminator
     let mut got_out: Option<Vec<u8>> = None;
     let mut got_err: Option<Vec<u8>> = None;
